@@ -6,8 +6,8 @@ import (
 	"path/filepath"
 	"runtime"
 	"sort"
-	"time"
 	"strings"
+	"time"
 
 	"github.com/coreruleset/crs-toolchain/v2/zz_verif/core"
 	"github.com/coreruleset/crs-toolchain/v2/zz_verif/inproc"
@@ -197,7 +197,7 @@ func C19(r *core.Run) {
 	enumSeq(len(c19Lines), 1, func(_ int, seq []int) { confCases = append(confCases, c19Build(seq, c19Lines, "\n")+"\n") })
 	type confRes struct {
 		Case, In, Cli string
-		Agree        bool
+		Agree         bool
 	}
 	confOut, confDeaths := core.Parallel(r, "conf", struct {
 		Dir   string
